@@ -299,6 +299,26 @@ func gen1(r *simrt.Rand, c GenCfg) *Journal {
 			}
 		}
 		g.dirs = append(g.dirs, dir)
+		if dir.Accrual == nil && r.P(0.06) {
+			// a near-duplicate on the same day: the same description, accounts and quantities,
+			// differing only in the commodity or in the @performance targets (one list a prefix of the other)
+			dup := dir
+			dup.Bookings = append([]Booking{}, dir.Bookings...)
+			if len(g.coms) > 1 && r.Bool() {
+				for k := range dup.Bookings {
+					for _, cm := range g.coms {
+						if cm != dup.Bookings[k].Com {
+							dup.Bookings[k].Com = cm
+							break
+						}
+					}
+				}
+			} else {
+				dup.HasPerf = true
+				dup.Perf = append(append([]string{}, dir.Perf...), g.coms[r.Intn(len(g.coms))])
+			}
+			g.dirs = append(g.dirs, dup)
+		}
 	}
 	// fix up opens moved by accruals
 	for i := range g.dirs {
